@@ -1,5 +1,5 @@
 CONSTANTS MaxPkgs = 3 NameIdx = {1, 3} Palette = 2 MaxMods = 2 TestDirs = FALSE NBases = 2 NSchemes = 2
           Entries = {"version", "path", "none"} Places = {"packages", "sibling", "nested"} Sim = FALSE
 SPECIFICATION Spec
-INVARIANTS TypeOK RootsDistinct ExternalIsPlace RootOfIsInnermost ModuleNameInjective ResolveIsFunction ResolveIsVisible ImportsAcyclic DepsShape
+INVARIANTS TypeOK RootsDistinct ExternalIsPlace RootOfIsInnermost ModuleNameInjective ResolveIsFunction ResolveIsVisible DropIsLocal ImportsAcyclic DepsShape
 CHECK_DEADLOCK FALSE
